@@ -14,6 +14,11 @@ CHECKS = {
  "C02": ("exploration", "seeded search over schedules x fault placements (error before/after effect, cancellation) drawn from the operations of a fault-free pre-run; invariant checked at every completed destination Push; outcome rules; fault-free retry", SIM + " with fault injection at the storage seam; in-run invariant + retry", "4.C02"),
  "C03": ("exploration", "seeded search over DAGs with referrers x start node x depth x filters x source kinds x schedules; lower/upper bound oracle from ground-truth inverse edges", SIM + "; ancestor-closure bounds oracle", "4.C03"),
  "C04": ("exploration", "seeded search over schedules and simulated latency assignments; in-flight gauges, per-node counters and callback trace recorded at the seams", SIM + " with simulated per-operation latency; history monitors", "4.C04"),
+ "C06": ("exploration", "seeded search over operation histories on memory/OCI/file stores: sequential histories compared step by step (results and full observable state) with an executable reference model; concurrent histories (2-4 tasks, seeded interleavings at lock/disk-operation granularity) checked with porcupine against the same model plus read-back after quiescence", SIM + "; reference model + porcupine linearizability of recorded histories", "4.C06"),
+ "C07": ("exploration", "seeded search over push orders (sequential and concurrent), deletes, GC and reopen; Predecessors of every universe node compared with ground-truth inverse edges after every step", SIM + "; ground-truth predecessor oracle after every step", "4.C07"),
+ "C08": ("exploration", "seeded search over OCI-layout histories with restart (reopen via New/NewFromFS/NewFromTar) as an operation; original vs reopened observable state and raw directory validity", SIM + " with restart-as-operation; differential original vs reopened + on-disk validator", "4.C08"),
+ "C09": ("exploration", "seeded search over OCI-layout histories with referrer chains, moved tags, tagged referrers and stray files, compared after every step with an executable garbage-collection model; termination by disk-operation budget", SIM + "; executable GC reference model + operation-budget termination check", "4.C09"),
+ "C10": ("fault_enumeration", "sampled histories; for each, the victim operation's mutating disk operations are counted and the disk is frozen before every one of them in turn (complete enumeration of crash points per victim); after each crash the directory is reopened by a fresh store and validated", SIM + "; exhaustive crash-point enumeration per sampled history at the disk seam", "4.C10"),
 }
 ids = [json.loads(l)["id"] for l in open(os.path.join(V, "properties.jsonl"))]
 checks = []
